@@ -11,7 +11,7 @@ ANCHORS = {
     "chuk_mcp.transports.stdio.stdio_client": [
         "_route_message", "_stdout_reader", "_process_message_data", "_send_error_response", "_stdin_writer",
         "new_request_stream", "send_json", "set_protocol_version", "get_protocol_version", "is_batching_enabled",
-        "get_batching_info", "get_streams",
+        "get_batching_info", "get_streams", "__init__", "_ensure_streams_initialized",
     ],
     "chuk_mcp.transports.stdio.transport": ["get_streams", "set_protocol_version", "__aenter__", "__aexit__"],
     "chuk_mcp.protocol.features.batching": [
